@@ -24,3 +24,7 @@ func TestS1(t *testing.T) {
 func TestCrash(t *testing.T) {
 	hk.RunSub(t, hk.Sub[CPlan]{Name: "s5/sigkill", Quick: 40, Thorough: 100, Gen: GenC, Run: RunC})
 }
+
+func TestConcurrent(t *testing.T) {
+	hk.RunSub(t, hk.Sub[WPlan]{Name: "s4/concurrent-writers", Quick: 400, Thorough: 1500, Gen: GenW, Run: RunW})
+}
